@@ -265,9 +265,11 @@ func slowY(site uint32) {
 		panic(&Abort{"run aborted", 0})
 	}
 	if s.steps > s.cfg.RunBudget {
-		s.aborted = true
+		// the run as a whole has been long enough: the harness stops issuing
+		// operations (OverBudget), but the operation in progress is never
+		// interrupted for this - only its own budget can do that, so that "no
+		// progress within N steps" always refers to a single operation
 		s.budgetHit = true
-		panic(&Abort{"run step budget exhausted", site})
 	}
 	if t.opSteps > s.cfg.OpBudget {
 		s.budgetHit = true
@@ -585,6 +587,17 @@ func Cur() int {
 		return s.cur
 	}
 	return -1
+}
+
+// OverBudget reports whether the run has used up its step budget: harnesses
+// check it between operations and stop issuing new ones.
+//
+//go:norace
+func OverBudget() bool {
+	if s := sim; s != nil {
+		return s.budgetHit
+	}
+	return false
 }
 
 // BeginOp resets the running task's per-operation step budget.
